@@ -289,7 +289,7 @@ func genCase(r *rand.Rand, seed int64, c int, tier string) *Replay {
 	case x < 30: // lazy interval below the block time (nothing forbids it)
 		rp.LI = pick(r, bt/4, bt/3, bt/2, bt*9/10, bt-1, bt-msNs)
 		if rp.LI <= 0 {
-			rp.LI = 1
+			rp.LI = bt/2 + 1
 		}
 	case x < 34:
 		rp.LI = 0 // default 60 s
@@ -322,6 +322,14 @@ func genCase(r *rand.Rand, seed int64, c int, tier string) *Replay {
 		nint += 130 // let the default 60 s lazy timer fire at least twice at the default block time
 	}
 	rp.H = t0 + int64(nint)*unit + pick(r, 0, 0, 1, unit/2, unit/3, 777)
+	// keep the number of timer events of one run bounded (a 1 ns interval would spin for ever)
+	minInt := bt
+	if rp.Lazy && li < bt {
+		minInt = li
+	}
+	if (rp.H-t0)/minInt > 3000 {
+		rp.H = t0 + 3000*minInt
+	}
 	durChoice := func() int64 {
 		return pick(r, 0, 0, 1, bt/10, bt/2, bt-1, bt, bt+1, bt*3/2, li-1, li, li+1, 2*li, bt-msNs, bt-msNs+1, li-msNs, 3*bt, r.Int63n(bt+1), r.Int63n(2*li+1), msNs, 2*msNs)
 	}
